@@ -411,6 +411,7 @@ static ssize_t write_common(int fd, const void *buf, size_t n, int cls)
     struct callctx c; begin_call(&c, cls);
     ssize_t res; int err = 0; size_t want = n;
     if (c.f && c.f->kind == F_ERRNO) { res = -1; err = (int)c.f->a; }
+    else if (c.f && c.f->kind == F_SHORT && c.f->a == 0 && n > 0) { res = 0; } /* accepts nothing */
     else {
         if (c.f && c.f->kind == F_SHORT && c.f->a >= 1 && c.f->a < want) want = (size_t)c.f->a;
         res = r_write(fd, buf, want); err = errno;
